@@ -26,12 +26,14 @@ CONFIG = {
               'floors': {'evaluations': 8000, 'distinct_nontrivial': 1200, 'perm.tetrahedral': 200, 'perm.axis': 100,
                          'table.tetrahedron-keys': 24, 'table.alkene-keys': 8, 'rdkit.smiles-compared': 3000,
                          'rdkit.wedge-compared': 300, 'isomers.sets': 40, 'edits.label-dropped': 30, 'single-label.compared': 1500,
-                         'single-label.verdict-not-stereogenic': 300, 'single-label.spiro-pairs': 300, 'explicit-h-wedges.compared': 150, 'edits.dependent-labels-checked': 60}},
+                         'single-label.verdict-not-stereogenic': 300, 'single-label.spiro-pairs': 300, 'explicit-h-wedges.compared': 150, 'edits.dependent-labels-checked': 60,
+                         'gem.equal-substituents': 50, 'gem.unlike-substituents': 250}},
     'thorough': {'shards': 16, 'budget_s': 1800, 'n_corpus': 4200, 'k_spell': 80,
                  'floors': {'evaluations': 100000, 'distinct_nontrivial': 8000, 'perm.tetrahedral': 200, 'perm.axis': 100,
                             'table.tetrahedron-keys': 24, 'table.alkene-keys': 8, 'rdkit.smiles-compared': 50000,
                             'rdkit.wedge-compared': 1000, 'isomers.sets': 60, 'edits.label-dropped': 30, 'single-label.compared': 8000,
-                            'single-label.verdict-not-stereogenic': 1500, 'single-label.spiro-pairs': 300, 'explicit-h-wedges.compared': 600, 'edits.dependent-labels-checked': 60}},
+                            'single-label.verdict-not-stereogenic': 1500, 'single-label.spiro-pairs': 300, 'explicit-h-wedges.compared': 600, 'edits.dependent-labels-checked': 60,
+                            'gem.equal-substituents': 50, 'gem.unlike-substituents': 250}},
 }
 
 
@@ -588,6 +590,63 @@ def single_labels(ctx, text, rng, limit=6):
                           % (t, idx + 1, kept), {'smiles': t})
 
 
+GEM_R = ['C', 'CC', 'F', 'C2CC2', 'c2ccccc2', 'C2CCCC2', 'C2CCOCC2', 'C2CCC2', 'c2ccncc2', 'C(C)C', 'OC', 'C#N']
+GEM_FRAMES = ['C[C@H]1CCC(%s)(%s)CC1', 'C[C@@H]1CC(%s)(%s)C1', 'O[C@H]1CCCC(%s)(%s)CCC1', 'C[C@]1(O)CCC(%s)(%s)CC1', 'C[C@H]1COC(%s)(%s)OC1']
+
+
+def gem_substituted_rings(ctx):
+    """ring atom with two substituents R, R' opposite a labelled ring atom: with R = R' (chains or rings) the compound has a mirror plane
+    through both atoms and no label may be kept; with R != R' both atoms are stereogenic, both labels are kept and the two
+    diastereomers differ. Verdicts by construction"""
+    k = 0
+    for frame in GEM_FRAMES:
+        for i, ra in enumerate(GEM_R):
+            for rb in GEM_R[i:]:
+                k += 1
+                if not ctx.mine(k):
+                    continue
+                if 'N(' in frame:
+                    text = frame.replace('N(%s)(%s)', '[N+](%s)(%s)') % (ra, rb)
+                else:
+                    text = frame % (ra, rb)
+                try:
+                    m = smiles(text)
+                except Exception as e:
+                    ctx.violation('labelled-text-not-readable/%s' % type(e).__name__, '%s: %r' % (text, e), {'smiles': text})
+                    continue
+                ctx.evaluations += 1
+                kept = [n for n, a in m.atoms() if a.stereo is not None]
+                if ra == rb:
+                    ctx.count('gem.equal-substituents')
+                    if kept:
+                        ctx.violation('label-kept-on-non-stereogenic-centre/ring-atom-opposite-two-equal-substituents',
+                                      '%s: label kept on %s although the opposite ring atom carries two equal groups' % (text, kept), {'smiles': text})
+                    continue
+                # unlike groups: label the second atom too, both ways
+                ctx.count('gem.unlike-substituents')
+                ctx.nontrivial.add(text)
+                marker = '[N+](' if 'N(' in frame else 'C(%s)(%s)' % (ra, rb)
+                out = []
+                for tag in ('@', '@@'):
+                    if 'N(' in frame:
+                        t2 = text.replace('[N+](', '[N%s+](' % tag, 1)
+                    else:
+                        j = text.index(marker)
+                        t2 = text[:j] + '[C%s]' % tag + text[j + 1:]
+                    try:
+                        m2 = smiles(t2)
+                    except Exception as e:
+                        ctx.violation('labelled-text-not-readable/%s' % type(e).__name__, '%s: %r' % (t2, e), {'smiles': t2})
+                        break
+                    n2 = sum(a.stereo is not None for _, a in m2.atoms())
+                    if n2 != 2:
+                        ctx.violation('label-dropped-on-stereogenic-centre/ring-atom-opposite-two-unlike-substituents',
+                                      '%s: %d of 2 labels kept' % (t2, n2), {'smiles': t2})
+                    out.append(m2)
+                if len(out) == 2 and out[0] == out[1]:
+                    ctx.violation('diastereomers-compare-equal/ring-atom-opposite-two-unlike-substituents', '%s: @ and @@ forms equal' % text, {'smiles': text})
+
+
 def worker(ctx):
     cfg = CONFIG[ctx.tier]
     rng = ctx.rng
@@ -596,6 +655,7 @@ def worker(ctx):
     RDLogger.DisableLog('rdApp.*')
     exhaustive_permutations(ctx)
     label_dropping(ctx)
+    gem_substituted_rings(ctx)
     c = T.corpus()
     ids = list(range(len(c)))
     _random.Random(ctx.seed).shuffle(ids)
